@@ -158,7 +158,7 @@ def run(rep, tier):
             rep.ob("R04.4", "push-only-non-unique|%s" % fname, False, "anchor: no Vec::push of a B-tree index found", f0.file + ":%d" % f0.line)
 
     # ------------------------------------------------------------------ R04.5 replay removes images before re-insert
-    rep.rule("R04.5", "reconcile_mutation_intents: both recorded images and the current document are removed from the indexes before the re-insert", floor=2)
+    rep.rule("R04.5", "reconcile_mutation_intents: both recorded images and the current document are removed from the indexes before the re-insert; replay precedes the repair scan in open", floor=3)
     f = prog.fn(anda.COLL + "::reconcile_mutation_intents")
     rep.saw(f, len(f.events))
     rm = f.calls_named(r"Collection::remove_document_from_indexes$")
@@ -170,6 +170,17 @@ def run(rep, tier):
     early = [r for r in rm if not any(f.dominates(r.block, i.block) for i in ins)]
     rep.ob("R04.5", "images-first|reconcile_mutation_intents", bool(early) and not f.can_reach([i.block for i in ins], [r.block for r in early]),
            "recorded pre/post images are removed in a pass that completes before any re-insert", f.file + ":%d" % f.line)
+    # recovery order (same fact as C01 R01.7, claimed here for the unique-index consequence): the intent replay retires the
+    # postings of images that no longer exist *before* the repair scan re-indexes the documents written after the checkpoint;
+    # the other order makes the scan hit AlreadyExists on a value that changed hands, and the new holder ends up unindexed.
+    o = prog.fn(anda.COLL + "::open")
+    rep.saw(o, len(o.events))
+    rp = o.calls_named(r"Collection::replay_mutation_intents$")
+    ar = o.calls_named(r"Collection::auto_repair_indexes$")
+    ok = bool(rp) and bool(ar) and all(o.must_pass({e.block for e in rp}, [x.block]) for x in ar) \
+        and not o.can_reach({x.block for x in ar}, {e.block for e in rp})
+    rep.ob("R04.5", "replay-before-repair|open", ok, "replay_mutation_intents must precede auto_repair_indexes in Collection::open",
+           (ar[0].where() if ar else o.file))
     return rep.finish(EXPLAIN)
 
 
